@@ -887,4 +887,55 @@ theorem evalDef_name (env : Str → Option Str) (name rhs : Str) (h : ∀ c ∈ 
       exact absurd heq.1 hc
     · rfl
 
+/-! ### lists, whole definition -/
+
+theorem toPythonType_string : toPythonType tString = tString := by decide
+
+theorem arrayEntry_string (e : Str) : arrayEntry tString e = 114 :: 39 :: (replaceChar 39 [92, 39] e ++ [39]) := by
+  simp [arrayEntry, toPythonType_string]
+
+theorem pRawItems_join : ∀ (es : List Str) (fuel : Nat), es ≠ [] → es.length ≤ fuel →
+    (∀ e ∈ es, rawOK e = true ∧ noNewline e) →
+    pRawItems fuel (join [44, 32] (es.map (arrayEntry tString)) ++ [93]) = some (es.map (replaceChar 39 [92, 39])) := by
+  intro es
+  induction es with
+  | nil => intro _ h; exact absurd rfl h
+  | cons e r ih =>
+    intro fuel _ hf hall
+    have he := hall e (by simp)
+    cases fuel with
+    | zero => simp at hf
+    | succ fuel =>
+      cases r with
+      | nil =>
+        simp only [List.map_cons, List.map_nil, join, arrayEntry_string, List.cons_append, List.append_assoc,
+          List.nil_append, pRawItems]
+        rw [pRaw_entry [93] e false he.1 he.2]
+        rfl
+      | cons e2 r' =>
+        have := ih fuel (by simp) (by simp only [List.length_cons] at hf ⊢; omega) (fun z hz => hall z (by simp [hz]))
+        simp only [List.map_cons, join, arrayEntry_string, List.cons_append, List.append_assoc, List.nil_append,
+          pRawItems] at this ⊢
+        rw [pRaw_entry _ e false he.1 he.2]
+        simp only [this]
+        rfl
+
+/-! ### the block as it stands in the file -/
+
+theorem splitlinesAux_noBreak : ∀ (s acc : Str), (∀ c ∈ s, isLineBreak c = false) →
+    splitlinesAux acc false s = if acc.reverse ++ s = [] then [] else [acc.reverse ++ s] := by
+  intro s
+  induction s with
+  | nil => intro acc _; simp [splitlinesAux]
+  | cons c s ih =>
+    intro acc h
+    have hc := h c (by simp)
+    simp only [splitlinesAux, Bool.false_and, hc]
+    rw [ih (c :: acc) (fun x hx => h x (by simp [hx]))]
+    simp
+
+theorem splitlines_noBreak (s : Str) (h : ∀ c ∈ s, isLineBreak c = false) (hne : s ≠ []) : splitlines s = [s] := by
+  rw [splitlines, splitlinesAux_noBreak s [] h]
+  simp [hne]
+
 end RTV.ResGen
